@@ -78,6 +78,15 @@ fn log_client_side(
     }
 }
 
+#[derive(Resource, Default)]
+struct DisconnectLog(Vec<Entity>);
+
+fn log_disconnect_requests(mut log: ResMut<DisconnectLog>, mut r: EventReader<DisconnectRequest>) {
+    for e in r.read() {
+        log.0.push(e.client);
+    }
+}
+
 fn log_server_side(mut log: ResMut<EventLog>, mut a: EventReader<FromClient<CE0>>, mut b: EventReader<FromClient<CEM>>) {
     for e in a.read() {
         log.0.push(("CE0", e.event.0, None, Some(e.client)));
@@ -180,6 +189,7 @@ struct ReplicationRan(bool);
 struct TickEvents(Vec<u32>);
 
 struct Cfg {
+    mismatch: Option<usize>,
     rel: bool,
     policy: String,
     auth: String,
@@ -187,6 +197,9 @@ struct Cfg {
     timeout_ms: u64,
     nclients: usize,
 }
+
+#[derive(Event, Serialize, Deserialize, Clone, Copy)]
+struct ExtraEvent(u32);
 
 fn add_common(app: &mut App, cfg: &Cfg, server_side: bool) {
     let policy = match cfg.policy.as_str() {
@@ -234,6 +247,11 @@ fn add_common(app: &mut App, cfg: &Cfg, server_side: bool) {
         app.sync_related_entities::<Follows>();
     }
     let _ = server_side;
+}
+
+/// A build whose registrations differ (one more client event at the end): a different protocol hash.
+fn add_mismatch(app: &mut App) {
+    app.add_client_event::<ExtraEvent>(Channel::Ordered);
 }
 
 fn val_of(world: &World, table: &Table, v: &Val) -> u32 {
@@ -547,6 +565,7 @@ struct ClientSlot {
 }
 
 struct Sim {
+    known_auth: std::collections::HashSet<usize>,
     cfg: Cfg,
     server: App,
     clients: Vec<ClientSlot>,
@@ -570,7 +589,8 @@ impl Sim {
             .init_resource::<ClientEnts>()
             .init_resource::<PreMap>()
             .init_resource::<ReplicationRan>()
-            .add_systems(Update, (log_server_side, apply_sops).chain())
+            .init_resource::<DisconnectLog>()
+            .add_systems(Update, (log_server_side, log_disconnect_requests, apply_sops).chain())
             .add_observer(observe_ct)
             // same shape as `send_replication`: the change detection is only evaluated while the server runs
             .configure_sets(
@@ -591,6 +611,9 @@ impl Sim {
         for _ in 0..cfg.nclients {
             let mut app = App::new();
             add_common(&mut app, &cfg, false);
+            if cfg.mismatch == Some(clients.len()) {
+                add_mismatch(&mut app);
+            }
             app.init_resource::<PendingCops>()
                 .init_resource::<Pre>()
                 .init_resource::<TickEvents>()
@@ -605,7 +628,7 @@ impl Sim {
             });
         }
         let track = cfg.track;
-        Sim { cfg, server, clients, dead: None, track }
+        Sim { known_auth: Default::default(), cfg, server, clients, dead: None, track }
     }
 
     fn sid(&self, e: Entity) -> String {
@@ -714,10 +737,19 @@ impl Sim {
         go().unwrap_or_else(|| "UNDECODABLE".into())
     }
 
-    /// server->client event channels: 2 SE0, 3 SEI, 4 SEM, 5 SEU, 6 ST (without the protocol check)
+    fn proto(&self) -> bool {
+        self.cfg.auth == "proto"
+    }
+
+    /// server->client event channels: 2 SE0, 3 SEI, 4 SEM, 5 SEU, 6 ST (one later under the protocol check, where
+    /// channel 2 carries the ProtocolMismatch trigger)
     fn decode_sevent(&self, ch: usize, mut m: Bytes) -> String {
         let names = ["SE0", "SEI", "SEM", "SEU", "ST"];
-        let Some(name) = ch.checked_sub(2).and_then(|i| names.get(i)) else { return format!("ch={ch} {}", hex(&m)) };
+        if self.proto() && ch == 2 {
+            return "PMISMATCH".into();
+        }
+        let base = if self.proto() { 3 } else { 2 };
+        let Some(name) = ch.checked_sub(base).and_then(|i| names.get(i)) else { return format!("ch={ch} {}", hex(&m)) };
         let mut go = || -> Option<String> {
             let tick = if *name == "SEI" { "-".to_string() } else { postcard_utils::from_buf::<u32, _>(&mut m).ok()?.to_string() };
             match *name {
@@ -751,7 +783,11 @@ impl Sim {
     /// client->server event channels: 1 CE0, 2 CEM, 3 CT
     fn decode_cevent(&self, ch: usize, mut m: Bytes) -> String {
         let names = ["CE0", "CEM", "CT"];
-        let Some(name) = ch.checked_sub(1).and_then(|i| names.get(i)) else { return format!("ch={ch} {}", hex(&m)) };
+        if self.proto() && ch == 1 {
+            return "PHASH".into();
+        }
+        let base = if self.proto() { 2 } else { 1 };
+        let Some(name) = ch.checked_sub(base).and_then(|i| names.get(i)) else { return format!("ch={ch} {}", hex(&m)) };
         let mut go = || -> Option<String> {
             match *name {
                 "CEM" => {
@@ -848,6 +884,23 @@ impl Sim {
         }
         lines.sort_by_key(|(c, _)| *c); // stable: per client the sending order is kept
         out.extend(lines.into_iter().map(|(_, l)| l));
+        {
+            let slots = self.server.world().resource::<ClientEnts>().0.clone();
+            for (i, s) in slots.iter().enumerate() {
+                let authorized = s.is_some_and(|e| self.server.world().get::<AuthorizedClient>(e).is_some());
+                if authorized && self.known_auth.insert(i) && self.proto() {
+                    out.push(format!("authorized {i}"));
+                }
+                if !authorized {
+                    self.known_auth.remove(&i);
+                }
+            }
+            let reqs = std::mem::take(&mut self.server.world_mut().resource_mut::<DisconnectLog>().0);
+            for e in reqs {
+                let who = slots.iter().position(|s| *s == Some(e)).map(|i| i.to_string()).unwrap_or("?".into());
+                out.push(format!("disconnect-request {who}"));
+            }
+        }
         let log = std::mem::take(&mut self.server.world_mut().resource_mut::<EventLog>().0);
         if !log.is_empty() {
             let slots = self.server.world().resource::<ClientEnts>().0.clone();
@@ -1053,6 +1106,7 @@ impl Sim {
                     return;
                 }
                 let e = self.server.world_mut().spawn(ConnectedClient { max_size: max }).id();
+                self.known_auth.remove(&c);
                 self.server.world_mut().resource_mut::<ClientEnts>().0[c] = Some(e);
                 self.clients[c].app.world_mut().resource_mut::<RepliconClient>().set_status(RepliconClientStatus::Connected);
             }
@@ -1068,6 +1122,7 @@ impl Sim {
             }
             "disconnect" => {
                 let c: usize = t[1].parse().unwrap();
+                self.known_auth.remove(&c);
                 if let Some(e) = self.server.world_mut().resource_mut::<ClientEnts>().0[c].take() {
                     if let Ok(em) = self.server.world_mut().get_entity_mut(e) {
                         em.despawn();
@@ -1199,7 +1254,7 @@ fn parse_sop(t: &[&str]) -> Option<Sop> {
 }
 
 fn parse_cfg(line: &str) -> Cfg {
-    let mut cfg = Cfg { rel: false, policy: "all".into(), auth: "none".into(), track: false, timeout_ms: 10_000, nclients: 1 };
+    let mut cfg = Cfg { mismatch: None, rel: false, policy: "all".into(), auth: "none".into(), track: false, timeout_ms: 10_000, nclients: 1 };
     for kv in line.split_whitespace().skip(1) {
         let Some((k, v)) = kv.split_once('=') else { continue };
         match k {
@@ -1209,6 +1264,7 @@ fn parse_cfg(line: &str) -> Cfg {
             "timeout" => cfg.timeout_ms = v.parse().unwrap(),
             "nclients" => cfg.nclients = v.parse().unwrap(),
             "rel" => cfg.rel = v == "1",
+            "mismatch" => cfg.mismatch = v.parse().ok(),
             _ => {}
         }
     }
@@ -1233,7 +1289,7 @@ fn main() {
             // a new scenario
             sim = Some(Sim::new(parse_cfg(line)));
             writeln!(o, "scenario").unwrap();
-        } else if line.starts_with("part") {
+        } else if line.starts_with("part") || line.starts_with("authz") {
             // oracle annotation for the model only
             continue;
         } else if let Some(s) = sim.as_mut() {
